@@ -226,12 +226,12 @@ theorem inv_dels (s : State) (ws : List W) (hd : ∀ w ∈ ws, ∃ c i, w = W.de
 theorem inv_oneOp (db : State) (c : Cmd) (ws : List W) (hinv : Inv db) (h : OneOp db c ws) : Inv (applyWs db ws) := by
   cases h with
   | nothing => exact hinv
-  | create ws _ hw => exact inv_upsert db _ ws hinv hw
-  | taskOnly t nt ws _ _ _ hw => exact inv_upsert db nt ws hinv hw
-  | taskMeta t nt m nm0 ws' _ _ _ _ _ _ _ _ hw =>
+  | create ws _ _ hw => exact inv_upsert db _ ws hinv hw
+  | taskOnly t nt ws _ _ _ _ hw => exact inv_upsert db nt ws hinv hw
+  | taskMeta t nt m nm0 ws' _ _ _ _ _ _ _ _ _ hw =>
     rw [applyWs_append]
     exact inv_putMeta _ _ _ (inv_upsert db nt ws' hinv hw)
-  | gc => exact inv_dels db _ (gcGo_dels _ _ _ 0) hinv
+  | gc _ => exact inv_dels db _ (gcGo_dels _ _ _ 0) hinv
 
 theorem inv_applySingle (db : State) (c : Cmd) (hinv : Inv db) : Inv (applySingle db c).1 := by
   rcases applySingle_state db c with h | ⟨ws, ho, h⟩
